@@ -10,7 +10,7 @@ import Sftp.Prim
   C. the refill loop of `(*File).readChunkAt`: `refill` runs the loop over a list of server reply sizes and records
      which file position ends up in which buffer slot.
 
-  The tables these are instantiated with come from `extract/clientarith.go` (Sftp/Generated/ClientArith.lean).
+  The tables these are instantiated with come from `extract/clientarith.go` (Sftp/Generated/ClientWorkers.lean, RecvErrPath.lean, ReadChunkLoop.lean).
 -/
 namespace Sftp.Arith
 
